@@ -17,7 +17,7 @@ the clauses the property's own rationale names: "losing a family, a member or a 
   R5  delivery              — the CLI prints every range of the evaluated set (no adaptor between ranges() and the print).
 """
 import re
-from vlib import facts as F, thir as T, xmlgrammar as X
+from vlib import facts as F, thir as T, xmlgrammar as X, absint as A
 from vlib.report import loc_of
 from .c15 import lock_version
 
@@ -102,128 +102,182 @@ def run(ctx):
     ]
     chk.instance("C11/R0", "irrc is the version whose Query enum was read (0.1.0)", "Cargo.lock", None, holds=ver == "0.1.0",
                  key="C11/R0 irrc version changed to %s: re-read its Query enum" % ver)
-    bodies = lib_bodies(fx)
-    chk.floor("C11 library bodies", len(bodies), 20)
-    r1_families(chk, bodies)
-    r2_responses(chk, fx, bodies)
-    r3_operands(chk, fx, bodies)
-    r4_recursive(chk, fx, bodies)
+    res = resolvers(fx)
+    chk.floor("C11 resolver impls", len(res), 4)
+    for ty, rn in sorted(res.items()):
+        chk.analysed(rn)
+        paths = explore_resolver(fx, rn)
+        resolver_rules(chk, fx, ty, rn, paths)
+    r4_recursive(chk, fx)
     r5_cli(chk, fx)
 
 
-def r1_families(chk, bodies):
+QUERY_ADT = ("irrc::query::Query", "irrc::Query")
+WANT_QUERY = {"AsSet": ["AsSetMembersRecursive"], "RouteSet": ["RouteSetMembersRecursive"], "AutNum": ["Ipv4Routes", "Ipv6Routes"], "FilterSet": ["RpslObject"]}
+ITER_DROPPING = ("Iterator::filter", "Iterator::take", "Iterator::skip", "Iterator::take_while", "Iterator::skip_while", "Iterator::step_by", "Iterator::nth",
+                 "Iterator::map_while", "Iterator::zip", "Iterator::scan", "Iterator::filter_map", "Iterator::last", "Iterator::next", "Iterator::rev")
+
+
+def resolvers(fx):
+    out = {}
+    for n in fx.thir:
+        m = re.match(r"^<bgpfu::query::RpslEvaluator as rpsl::expr::eval::Resolver<'_, rpsl::names::(\w+),.*>>::resolve$", n)
+        if m:
+            out[m.group(1)] = n
+    return out
+
+
+def strip_conv(v):
+    while isinstance(v, tuple) and v[0] == "term" and T.short(v[1], 2) in VALUE_PRESERVING and v[2]:
+        v = v[2][0]
+    return v
+
+
+def is_query(v, variant=None):
+    return isinstance(v, tuple) and v[0] == "adt" and v[1].endswith(QUERY_ADT) and (variant is None or v[2] == variant)
+
+
+def explore_resolver(fx, rn):
+    """Run the resolver with the connection wrapper looked through; every path's trace lists the queries built and how the responses are consumed."""
+    def hook(fn, args, node, interp):
+        s2 = T.short(fn, 2)
+        if s2 == "RpslEvaluator::with_connection":
+            return interp.apply(args[1], [args[0], ("sym", "CONN")], node, 0)
+        if s2 in ("Connection::pipeline_from_initial",):
+            # the per-member closure is applied to a symbolic member response
+            interp.trace.append(("call", fn, tuple(args), node.get("sp")))
+            if len(args) >= 3:
+                r = interp.apply(args[2], [A.ok(("sym", "MEMBER_ITEM"))], node, 0)
+                interp.trace.append(("member-queries", r))
+            return ("sym", "PIPELINE")
+        if s2 == "Iterator::find_map" and len(args) == 2:
+            # first element for which the closure yields Some(..): evaluate the closure on a symbolic element
+            if interp.choose(2, "find_map") == 1:
+                return A.NONE
+            from_responses = A.mentions(args[0], lambda x: x[0] == "term" and T.short(x[1], 2) == "Pipeline::responses")
+            el = A.ok(("sym", "RESPONSE")) if from_responses else ("term", "elem", (args[0],))
+            r = interp.apply(args[1], [el], node, 0)
+            k, pv = interp._known(r, True)
+            if k != "Some":
+                raise A._Infeasible()
+            return A.some(pv)
+        if s2 in ("Evaluator::collect_result",) and len(args) >= 2:
+            # Result<T,E> -> Result<Option<T>,E>: Ok(x) => Ok(Some(x)); errors are C03's subject
+            k, p = interp._known(args[1], False)
+            interp.trace.append(("call", fn, tuple(args), node.get("sp")))
+            return A.ok(A.some(p)) if k == "Ok" else ("sym", "SUNK_OR_ERR")
+        return None
+    it = A.Interp(fx, hook=hook, crates=("bgpfu",), max_paths=4000)
+    it.model_iterators = False
+    return it.explore(rn)
+
+
+def queries_in(p):
+    """Every Query value built on a path (anywhere in the trace)."""
+    out = []
+    for e in p.trace:
+        vals = list(e[2]) if e[0] in ("call", "enter") else [e[1]] if e[0] == "member-queries" else []
+        for v in vals:
+            for x in A.walk_value(v):
+                if is_query(x):
+                    out.append(x)
+    if p.ret is not None:
+        out += [x for x in A.walk_value(p.ret) if is_query(x)]
+    uniq = []
+    for q in out:
+        if q not in uniq:
+            uniq.append(q)
+    return uniq
+
+
+def resolver_rules(chk, fx, ty, rn, paths):
+    t = fx.thir[rn]
+    it = fx.fn_item(rn)
+    pname = (it.get("params") or [None, None])[1]
+    want = WANT_QUERY.get(ty)
+    if want is None:
+        chk.instance("C11/R3", "Resolver<%s> has a reference row" % ty, rn, loc_of(t.get("sp")), holds=False, key="C11/R3 Resolver<%s> unaudited" % ty)
+        return
+    qs_all = []
+    for p in paths:
+        for q in queries_in(p):
+            if q not in qs_all:
+                qs_all.append(q)
+    direct = [q for q in qs_all if not A.mentions(q, lambda x: x == ("sym", "MEMBER_ITEM"))]
+    member = [q for q in qs_all if A.mentions(q, lambda x: x == ("sym", "MEMBER_ITEM"))]
+    # R3: operand identity
+    for variant in want:
+        found = [q for q in direct if q[2] == variant]
+        idx = 1 if variant == "RpslObject" else 0
+        ops = [A.vstr(strip_conv(dict(q[3]).get(str(idx), ("unit",)))) for q in found]
+        ok = len(found) == 1 and pname is not None and ops == ["«param:%s»" % pname]
+        chk.instance("C11/R3", "Resolver<%s>: Query::%s is built from the name being resolved (`%s`; operand %s)" % (ty, variant, pname, ops), rn,
+                     loc_of(t.get("sp")), holds=ok, key="C11/R3 Resolver<%s> %s operand" % (ty, variant))
+    extra = [q[2] for q in direct if q[2] not in want]
+    if extra:
+        chk.instance("C11/R3", "Resolver<%s> builds no other query (%s)" % (ty, extra), rn, loc_of(t.get("sp")), holds=False,
+                     key="C11/R3 Resolver<%s> extra query %s" % (ty, sorted(set(extra))))
+    if ty == "FilterSet":
+        found = [q for q in direct if q[2] == "RpslObject"]
+        cls = A.vstr(dict(found[0][3]).get("0")) if found else "?"
+        chk.instance("C11/R3", "filter-set lookup asks for the filter-set object class (%s)" % cls, rn, None, holds=cls.endswith("FilterSet"),
+                     key="C11/R3 Resolver<FilterSet> object class")
+        # the stored expression: the first mp-filter attribute of a FilterSet object, unchanged — read off the paths that return Ok(expr)
+        oks = [p for p in paths if A.is_res(p.ret) and p.ret[2] == "Ok" and not A.mentions(p.ret, lambda x: (x[0] == "term" and T.short(x[1], 2) == "str::parse")
+                                                                                               or x == ("sym", "SUNK_OR_ERR"))]
+        good = bool(oks)
+        for p in oks:
+            v = A.vstr(A.payload0(p.ret))
+            # Ok(expr): expr = the MpFilter payload of an attribute of the FilterSet payload of the response's own content
+            good = good and "→MpFilter.0" in v and "→FilterSet.0" in v and "ResponseItem::into_content(«RESPONSE»)" in v
+        chk.instance("C11/R3", "a filter-set resolves to its own mp-filter attribute, unchanged", rn, None, holds=good, key="C11/R3 Resolver<FilterSet> attribute")
+    # R1: family completeness — wherever routes are requested, for both families of the same AS
+    for group, label in ((direct, "for the resolved name"), (member, "per member")):
+        v4 = sorted(A.vstr(dict(q[3]).get("0")) for q in group if q[2] == "Ipv4Routes")
+        v6 = sorted(A.vstr(dict(q[3]).get("0")) for q in group if q[2] == "Ipv6Routes")
+        if v4 or v6:
+            ok = v4 == v6
+            chk.instance("C11/R1", "Resolver<%s>: routes are requested %s for both address families of the same AS (v4 for %s, v6 for %s)" % (ty, label, v4, v6), rn,
+                         loc_of(t.get("sp")), holds=ok, key="C11/R1 Resolver<%s>::resolve family-lost %s" % (ty, label),
+                         detail=None if ok else "one address family of an AS's routes is never requested: the evaluated set silently lacks it")
+    if ty == "AsSet":
+        ok = bool(member) and all(A.vstr(dict(q[3]).get("0")) in ("ResponseItem::into_content(«MEMBER_ITEM»)", "«MEMBER_ITEM»") for q in member)
+        chk.instance("C11/R3", "per-member route queries use the member the response carried (%s)" % sorted({A.vstr(dict(q[3]).get("0")) for q in member}), rn,
+                     loc_of(t.get("sp")), holds=ok, key="C11/R3 Resolver<AsSet> member operand")
+        # both member queries are produced on one and the same path (neither is conditional on the other)
+        both = any(len([q for q in queries_in(p) if q in member]) >= 2 for p in paths)
+        chk.instance("C11/R1", "neither family's per-member request is conditional", rn, loc_of(t.get("sp")), holds=both,
+                     key="C11/R1 Resolver<AsSet>::resolve family-conditional")
+    # R2: response completeness
     n = 0
-    for name, t, body in bodies:
-        qs = [a for a in query_adts(body) if a["variant"] in ROUTE_Q]
-        if not qs:
-            continue
-        n += 1
-        chk.analysed(name)
-        by = {v: sorted(operand(a["fields"][0]["expr"]) for a in qs if a["variant"] == v) for v in ROUTE_Q}
-        ok = by["Ipv4Routes"] == by["Ipv6Routes"] and bool(by["Ipv4Routes"])
-        chk.instance("C11/R1", "routes are requested for both address families of the same AS (v4 for %s, v6 for %s)" % (by["Ipv4Routes"], by["Ipv6Routes"]),
-                     name, loc_of(qs[0].get("sp")), holds=ok, key="C11/R1 %s family-lost" % label(name),
-                     detail=None if ok else "one address family of an AS's routes is never requested: the evaluated set silently lacks it")
-        # both requests are siblings of one expression (array literal or one push chain): neither is conditional on the other
-        conds = [x for x in T.walk(body) if x.get("k") in ("If", "Match") and not str(x.get("src", "")).startswith(("TryDesugar", "AwaitDesugar"))
-                 and any(a in list(T.walk(x)) for a in qs)]
-        chk.instance("C11/R1", "neither family's request is conditional", name, loc_of(qs[0].get("sp")), holds=not conds,
-                     key="C11/R1 %s family-conditional" % label(name))
-    chk.floor("C11/R1 bodies requesting routes", n, 2)
+    for p in paths:
+        for e in p.trace:
+            if e[0] == "call" and T.short(e[1], 2) in ("Evaluator::collect_results",):
+                n += 1
+                itv = e[2][1] if len(e[2]) > 1 else None
+                names = [T.short(x[1], 2) for x in A.walk_value(itv) if x[0] == "term"] if itv is not None else []
+                bad = [x for x in names if x in ITER_DROPPING]
+                src = "Pipeline::responses" in names
+                maps = [x for x in A.walk_value(itv) if x[0] == "term" and T.short(x[1], 2) == "Iterator::map"]
+                mp_ok = True
+                for m in maps:
+                    sub = A.Interp(fx, crates=("bgpfu",))
+                    sub.trace, sub.assume, sub._script, sub._pos, sub._taken, sub._alts, sub._sym, sub._occ = [], {}, [], 0, [], [], 0, {}
+                    r = sub.apply(m[2][1], [A.ok(("sym", "ITEM"))], {"sp": None}, 0)
+                    mp_ok = mp_ok and A.vstr(r) in ("Ok(ResponseItem::into_content(«ITEM»))",)
+                    r2 = sub.apply(m[2][1], [A.err(("sym", "E"))], {"sp": None}, 0)
+                    mp_ok = mp_ok and A.vstr(r2) == "Err(«E»)"
+                ok = src and not bad and mp_ok
+                chk.instance("C11/R2", "Resolver<%s>: every response reaches collect_results unchanged (%s)" % (ty, " <- ".join(names[:5])), rn, loc_of(e[3]),
+                             holds=ok, key="C11/R2 Resolver<%s>::resolve responses-adaptor %s" % (ty, ",".join(bad) or ("rewritten" if not mp_ok else "no-responses")),
+                             detail=None if ok else "an adaptor between responses() and collect_results drops, reorders or rewrites responses: members / prefixes are lost silently")
+                break
+    if ty in ("AsSet", "RouteSet", "AutNum"):
+        chk.instance("C11/R2", "Resolver<%s> collects its responses with collect_results" % ty, rn, None, holds=n >= 1, key="C11/R2 Resolver<%s> no collect_results" % ty)
 
 
-def r2_responses(chk, fx, bodies):
-    n = 0
-    for name, t, body in bodies:
-        rs = [c for c in T.calls(body) if T.short(c["fn"], 2) == "Pipeline::responses"]
-        if not rs:
-            continue
-        chk.analysed(name)
-        # outermost call expression whose receiver chain ends in responses()
-        tops = []
-        for c in T.calls(body):
-            ch, root = chain_of(c)
-            if ch and ch[-1][0] == "Pipeline::responses":
-                tops.append((len(ch), ch))
-        if not tops:
-            chk.instance("C11/R2", "responses() feeds a recognised consumer", name, loc_of(rs[0].get("sp")), holds=False,
-                         key="C11/R2 %s responses unrecognised form" % label(name))
-            continue
-        ch = max(tops, key=lambda x: x[0])[1]
-        names = tuple(c[0] for c in ch)
-        n += 1
-        ok = names == MAP_OK or names == FIND_OK
-        chk.instance("C11/R2", "every response reaches its consumer: %s" % " <- ".join(names), name, loc_of(ch[0][1].get("sp")), holds=ok,
-                     key="C11/R2 %s responses-adaptor %s" % (label(name), "<-".join(x for x in names if x not in MAP_OK + FIND_OK)),
-                     detail=None if ok else "an adaptor between responses() and collect_results drops or reorders responses: members / prefixes are lost silently")
-        if names == MAP_OK:
-            clo = T.peel(ch[1][1]["args"][1])
-            cb = fx.thir.get(clo.get("def")) if clo.get("k") == "Closure" else None
-            txt = X.ntext(T.user_body(cb)) if cb else "?"
-            ok2 = bool(re.match(r"^Result::map\((resp|response|\w+),ResponseItem::into_content\)$", txt))
-            chk.instance("C11/R2", "the mapping closure passes each item's content on unchanged (%s)" % txt[:80], clo.get("def", name), loc_of(clo.get("sp")),
-                         holds=ok2, key="C11/R2 %s map-closure rewrites items" % label(name))
-    chk.floor("C11/R2 response streams", n, 4)
-
-
-def r3_operands(chk, fx, bodies):
-    """resolver parameter name -> queries built from it"""
-    want = {
-        "rpsl::names::AsSet": [("AsSetMembersRecursive", 0)],
-        "rpsl::names::RouteSet": [("RouteSetMembersRecursive", 0)],
-        "rpsl::names::AutNum": [("Ipv4Routes", 0), ("Ipv6Routes", 0)],
-        "rpsl::names::FilterSet": [("RpslObject", 1)],
-    }
-    n = 0
-    for ty, qs in sorted(want.items()):
-        res = [nm for nm in fx.mir if nm.startswith("<bgpfu::query::RpslEvaluator as rpsl::expr::eval::Resolver<'_, %s," % ty) and nm.endswith("::resolve")]
-        if len(res) != 1:
-            raise F.AnchorLost("resolver for %s (%d found)" % (ty, len(res)))
-        rn = res[0]
-        it = fx.fn_item(rn)
-        params = list(it.get("params", []))
-        pname = params[1] if len(params) > 1 else None
-        sub = [(nm, b) for nm, t, b in bodies if nm == rn or nm.startswith(rn + "::{closure")]
-        for (variant, idx) in qs:
-            found = [a for nm, b in sub for a in query_adts(b) if a["variant"] == variant]
-            n += 1
-            ok = len(found) == 1 and pname is not None and operand(found[0]["fields"][idx]["expr"]) == pname
-            chk.instance("C11/R3", "Resolver<%s>: Query::%s is built from the name being resolved (`%s`; operand %s)" % (
-                T.short(ty, 1), variant, pname, [operand(a["fields"][idx]["expr"]) for a in found]), rn, loc_of(found[0].get("sp")) if found else None,
-                holds=ok, key="C11/R3 Resolver<%s> %s operand" % (T.short(ty, 1), variant))
-        if ty == "rpsl::names::FilterSet":
-            found = [a for nm, b in sub for a in query_adts(b) if a["variant"] == "RpslObject"]
-            cls = X.ntext(found[0]["fields"][0]["expr"]) if found else "?"
-            chk.instance("C11/R3", "filter-set lookup asks for the filter-set object class (%s)" % cls, rn, None, holds=cls.endswith("RpslObjectClass::FilterSet"),
-                         key="C11/R3 Resolver<FilterSet> object class")
-            # the stored expression: first mp-filter attribute of a FilterSet object, cloned unchanged
-            txt = " ".join(X.ntext(b) for nm, b in sub)
-            ok = "ifletRpslAttribute::MpFilter(expr)=attr{Option::Some(Clone::clone(expr))}else{Option::None}" in txt and "ifletRpslObject::FilterSet(" in txt
-            chk.instance("C11/R3", "a filter-set resolves to its own mp-filter attribute, unchanged", rn, None, holds=ok, key="C11/R3 Resolver<FilterSet> attribute")
-    # per-member route queries in the as-set resolver use the member the response carried
-    asr = [nm for nm in fx.mir if nm.startswith("<bgpfu::query::RpslEvaluator as rpsl::expr::eval::Resolver<'_, rpsl::names::AsSet,") and nm.endswith("::resolve")][0]
-    for nm, t, b in bodies:
-        if not nm.startswith(asr + "::{closure"):
-            continue
-        qs = [a for a in query_adts(b) if a["variant"] in ROUTE_Q]
-        if not qs:
-            continue
-        lets = {T.pat_str(s["pat"]): s["init"] for s in T.walk(b) if s.get("k") == "LetStmt" and s.get("init") is not None}
-        srcs = set()
-        for a in qs:
-            o = operand(a["fields"][0]["expr"])
-            if o in lets:
-                o = operand(lets[o])
-            srcs.add(o)
-        pn = [T.pat_str(p["pat"]) for p in t.get("params", []) if p.get("pat") is not None]
-        ok = len(srcs) == 1 and pn and srcs == {pn[-1]}
-        n += 1
-        chk.instance("C11/R3", "per-member route queries use the member the response carried (%s; closure parameter %s)" % (sorted(srcs), pn), nm,
-                     loc_of(qs[0].get("sp")), holds=bool(ok), key="C11/R3 Resolver<AsSet> member operand")
-    chk.floor("C11/R3 operand instances", n, 6)
-
-
-def r4_recursive(chk, fx, bodies):
+def r4_recursive(chk, fx):
+    bodies = lib_bodies(fx)
     seen = {}
     for name, t, body in bodies:
         for a in query_adts(body):
@@ -241,27 +295,51 @@ def r4_recursive(chk, fx, bodies):
 
 
 def r5_cli(chk, fx):
-    cands = [n for n in fx.thir if n == "bgpfu_cli::cli::main"]
-    if len(cands) != 1:
-        raise F.AnchorLost("bgpfu_cli::cli::main")
-    t = fx.thir[cands[0]]
-    chk.analysed(cands[0])
-    body = T.user_body(t)
-    fe = [c for c in T.calls(body) if T.short(c["fn"], 2) in ("Iterator::for_each", "Iterator::try_for_each")]
-    ok = False
-    names = ()
-    if len(fe) == 1:
-        ch, root = chain_of(fe[0])
-        names = tuple(c[0] for c in ch)
-        ok = names[:2] == ("Iterator::for_each", "PrefixSet::ranges") and "RpslEvaluator::evaluate" in names and \
-            all(x in ("Iterator::for_each", "PrefixSet::ranges", "RpslEvaluator::evaluate", "RpslEvaluator::new", "Cli::host") for x in names)
-    chk.instance("C11/R5", "the CLI prints every range of the evaluated set (%s)" % " <- ".join(names), cands[0], loc_of(fe[0].get("sp")) if fe else None,
-                 holds=ok, key="C11/R5 cli print chain")
-    if fe:
-        clo = T.peel(fe[0]["args"][1])
-        cb = fx.thir.get(clo.get("def")) if clo.get("k") == "Closure" else None
-        txt = X.ntext(T.user_body(cb)) if cb else ""
-        pn = [T.pat_str(p["pat"]) for p in (cb or {}).get("params", []) if p.get("pat") is not None]
-        ok2 = bool(pn) and ("Argument::new_display(args.0)" in txt or "new_display" in txt) and ("letargs=(%s)" % pn[-1]) in txt and "_print" in txt
-        chk.instance("C11/R5", "each range is printed with its Display form", clo.get("def", "?"), loc_of(clo.get("sp")), holds=ok2, key="C11/R5 cli print closure",
-                     detail=txt[:160] if not ok2 else None)
+    """The CLI prints every range of the evaluated set: on the path where evaluation succeeds, what is iterated is ranges() of the
+    evaluator's result, with no adaptor in between, and each element is printed with Display."""
+    mn = "bgpfu_cli::cli::main"
+    if mn not in fx.thir:
+        raise F.AnchorLost(mn)
+    chk.analysed(mn)
+    t = fx.thir[mn]
+    printed = []
+
+    def bare(v):
+        while isinstance(v, tuple) and v[0] == "term" and T.short(v[1], 2) in A.ITER_IDENTITY and v[2]:
+            v = v[2][0]
+        return v
+
+    def hook(fn, args, node, interp):
+        s2 = T.short(fn, 2)
+        args = [bare(a) for a in args] if s2 in ("Iterator::for_each", "Iterator::try_for_each", "Iterator::next") else args
+        if s2 in ("io::_print", "io::_eprint"):
+            interp.trace.append(("print", s2, tuple(args), node.get("sp")))
+            return ("unit",)
+        if s2 in ("Iterator::for_each", "Iterator::try_for_each") and len(args) == 2:
+            interp.trace.append(("iterate", args[0], node.get("sp")))
+            interp.apply(args[1], [("term", "elem", (args[0],))], node, 0)
+            return ("unit",)
+        if s2 == "Iterator::next" and args:
+            seen = [e for e in interp.trace if e[0] == "iterate" and e[1] == args[0]]
+            if seen:
+                return A.NONE
+            interp.trace.append(("iterate", args[0], node.get("sp")))
+            return A.some(("term", "elem", (args[0],)))
+        return None
+    it = A.Interp(fx, hook=hook, crates=("bgpfu_cli",), max_paths=3000, no_inline=("tracing", "Cli::parse"))
+    it.model_iterators = False
+    paths = it.explore(mn)
+    ok, names = False, ()
+    pr_ok = False
+    for p in paths:
+        its = [e for e in p.trace if e[0] == "iterate"]
+        prs = [e for e in p.trace if e[0] == "print" and e[1] == "io::_print"]
+        if not its:
+            continue
+        names = tuple(T.short(x[1], 2) for x in A.walk_value(its[0][1]) if x[0] == "term")
+        root_ok = len(its) == 1 and names[:1] == ("PrefixSet::ranges",) and "RpslEvaluator::evaluate" in names and not [n for n in names if n.startswith("Iterator::")]
+        ok = ok or root_ok
+        pr_ok = pr_ok or (len(prs) == 1 and "new_display(elem(PrefixSet::ranges(" in A.vstr(("tuple", prs[0][2])))
+    chk.instance("C11/R5", "the CLI iterates evaluate(..).ranges() itself (no adaptor): %s" % " <- ".join(names[:4]), mn, loc_of(t.get("sp")), holds=ok,
+                 key="C11/R5 cli print chain")
+    chk.instance("C11/R5", "each range is printed with its Display form", mn, loc_of(t.get("sp")), holds=pr_ok, key="C11/R5 cli print closure")
